@@ -28,15 +28,15 @@ def liveOf (s : St) (k : Nat) : Option Nat := (s.live.find? (·.1 == k)).map (·
 def pre (s : St) (e : Ev) : Option String :=
   match e with
   | .ctorBegin k =>
-    if s.ctor.contains k then some "the constructor for a key started while another one is running for it"
-    else if (liveOf s k).isSome then some "the constructor for a key started although the key has a live object"
-    else none
+    -- (an older object of the key may still be alive at this moment: expiry and a recycling release take the item out of the
+    -- cache under the lock and destroy the object after releasing it, when nobody can reach it any more)
+    if s.ctor.contains k then some "the constructor for a key started while another one is running for it" else none
   | .ctorEnd k _ => if s.ctor.contains k then none else some "constructor end without begin"
   | .acquired k o => if liveOf s k = some o then none else some "acquire() returned an object that is not the key's live object"
   | .releasing _ o => if s.refs.contains o then none else some "release without a reference"
   | .destroyed k o =>
     if s.refs.contains o then some "an object was destroyed while an acquirer still holds a reference"
-    else if liveOf s k = some o then none else some "an object was destroyed twice (or one that was never constructed)"
+    else if s.live.contains (k, o) then none else some "an object was destroyed twice (or one that was never constructed)"
   | .dead => some "an acquirer was handed (or kept holding) an object that had been destroyed"
 
 def eff (s : St) (e : Ev) : St :=
